@@ -2,7 +2,10 @@ package main
 
 import (
 	"fmt"
+	"go/constant"
+	"go/token"
 	"math/big"
+	"sort"
 	"strings"
 
 	"golang.org/x/tools/go/ssa"
@@ -120,7 +123,12 @@ func checkC16(c *Checker) {
 						ok, detail = false, fmt.Sprintf("returns %v on path %s: not the nearest bound of [%s, %s]", cv, factsBrief(o.St.facts), mn, mx)
 					}
 				default:
-					ok, detail = false, "result is neither val nor a bound: "+pretty(canon(ret))
+					// a selection tree (min, max, conditional on comparisons) over val and constants: every
+					// comparison is with a constant, so the tree is decided by the position of val among those
+					// constants; one representative per ordering class is compared with the clamp
+					if d := clampTree(canon(ret), val, f, pv, mn, mx, cl.signed); d != "" {
+						ok, detail = false, d
+					}
 				}
 				if len(mods(o)) > 0 {
 					ok, detail = false, "clamp has side effects"
@@ -284,7 +292,12 @@ func checkC17(c *Checker) {
 			c.refuted("C17-T2", sp.name, p, "not a single straight-line formula", "")
 			continue
 		}
-		// T2: Conv_int(Call(math.Round, X))
+		// T2: Conv_int(Call(math.Round, X)), or the same rounding spelled with math.Trunc
+		if ret.Op == OpConv && isIntLike(ret.Typ) {
+			if x := roundHalfAwayArg(ret.Args[0]); x != nil {
+				ret = mkConv(mkCall("math.Round", ret.Args[0].Typ, x), ret.Typ)
+			}
+		}
 		okT2 := ret.Op == OpConv && isIntLike(ret.Typ) && ret.Args[0].Op == OpCall && ret.Args[0].Name == "math.Round" && len(ret.Args[0].Args) == 1
 		if !okT2 {
 			got := "a bare conversion (truncation)"
@@ -408,4 +421,239 @@ func comparisonOnly(t *Term, atom *Term) bool {
 		return true
 	}
 	return !t.contains(func(x *Term) bool { return x.Op == OpAtom && x.Name == atom.Name })
+}
+
+// clampTree decides whether a selection tree over val and constants equals clamp(val, mn, mx) for every val
+// admitted by the path facts. Returns "" when it does.
+func clampTree(ret, val *Term, f *Facts, pv *Poly, mn, mx *big.Int, signed bool) string {
+	consts := []*big.Int{mn, mx}
+	if signed {
+		consts = append(consts, new(big.Int).Neg(pow2(63)), new(big.Int).Sub(pow2(63), big.NewInt(1)))
+	} else {
+		consts = append(consts, big.NewInt(0), new(big.Int).Sub(pow2(64), big.NewInt(1)))
+	}
+	tmin, tmax := consts[2], consts[3]
+	okTree := true
+	var walk func(t *Term, boolean bool)
+	walk = func(t *Term, boolean bool) {
+		switch t.Op {
+		case OpConst:
+			if v, ok := bigOf(t.C); ok && v != nil {
+				consts = append(consts, v)
+			} else if !boolean {
+				okTree = false
+			}
+		case OpAtom:
+			if t.Name != val.Name {
+				okTree = false
+			}
+		case OpMin, OpMax:
+			for _, a := range t.Args {
+				walk(a, false)
+			}
+		case OpIte:
+			walk(t.Args[0], true)
+			walk(t.Args[1], false)
+			walk(t.Args[2], false)
+		case OpLNot:
+			if !boolean {
+				okTree = false
+			}
+			walk(t.Args[0], true)
+		case OpCmp:
+			if !boolean {
+				okTree = false
+			}
+			walk(t.Args[0], false)
+			walk(t.Args[1], false)
+		default:
+			okTree = false
+		}
+	}
+	walk(ret, false)
+	if !okTree {
+		return "result is neither val, a bound, nor a selection (min/max/conditional) over val and constants: " + pretty(ret)
+	}
+	sort.Slice(consts, func(i, j int) bool { return consts[i].Cmp(consts[j]) < 0 })
+	var reps []*big.Int
+	for i, b := range consts {
+		if i > 0 && consts[i-1].Cmp(b) == 0 {
+			continue
+		}
+		reps = append(reps, b)
+		nx := new(big.Int).Add(b, big.NewInt(1))
+		if i+1 < len(consts) && nx.Cmp(consts[i+1]) < 0 {
+			reps = append(reps, nx)
+		}
+	}
+	for _, v := range reps {
+		if v.Cmp(tmin) < 0 || v.Cmp(tmax) > 0 {
+			continue
+		}
+		// feasible on this path?
+		feasible := true
+		for _, fc := range f.list {
+			if fc.P == nil {
+				continue
+			}
+			if x, ok := polyAt(fc.P, val, v); ok {
+				switch fc.Kind {
+				case CGE0:
+					feasible = feasible && x.Sign() >= 0
+				case CEQ0:
+					feasible = feasible && x.Sign() == 0
+				case CNE0:
+					feasible = feasible && x.Sign() != 0
+				}
+			}
+		}
+		if !feasible {
+			continue
+		}
+		got, ok := selEval(ret, val, v)
+		if !ok {
+			return "selection tree does not evaluate at val = " + v.String()
+		}
+		want := v
+		if v.Cmp(mn) < 0 {
+			want = mn
+		}
+		if v.Cmp(mx) > 0 {
+			want = mx
+		}
+		if got.Cmp(want) != 0 {
+			return fmt.Sprintf("returns %s for val = %s, expected %s (%s)", got, v, want, pretty(ret))
+		}
+	}
+	return ""
+}
+
+// selEval evaluates a selection tree at val = v.
+func selEval(t, val *Term, v *big.Int) (*big.Int, bool) {
+	switch t.Op {
+	case OpConst:
+		c, ok := bigOf(t.C)
+		return c, ok && c != nil
+	case OpAtom:
+		return v, t.Name == val.Name
+	case OpMin, OpMax:
+		var best *big.Int
+		for _, a := range t.Args {
+			x, ok := selEval(a, val, v)
+			if !ok {
+				return nil, false
+			}
+			if best == nil || (t.Op == OpMin && x.Cmp(best) < 0) || (t.Op == OpMax && x.Cmp(best) > 0) {
+				best = x
+			}
+		}
+		return best, best != nil
+	case OpIte:
+		b, ok := selBool(t.Args[0], val, v)
+		if !ok {
+			return nil, false
+		}
+		if b {
+			return selEval(t.Args[1], val, v)
+		}
+		return selEval(t.Args[2], val, v)
+	}
+	return nil, false
+}
+
+func selBool(t, val *Term, v *big.Int) (bool, bool) {
+	switch t.Op {
+	case OpConst:
+		if t.C != nil && t.C.Kind() == constant.Bool {
+			return constant.BoolVal(t.C), true
+		}
+	case OpLNot:
+		b, ok := selBool(t.Args[0], val, v)
+		return !b, ok
+	case OpCmp:
+		a, ok1 := selEval(t.Args[0], val, v)
+		b, ok2 := selEval(t.Args[1], val, v)
+		if !ok1 || !ok2 {
+			return false, false
+		}
+		c := a.Cmp(b)
+		switch t.Tok {
+		case token.LSS:
+			return c < 0, true
+		case token.LEQ:
+			return c <= 0, true
+		case token.GTR:
+			return c > 0, true
+		case token.GEQ:
+			return c >= 0, true
+		case token.EQL:
+			return c == 0, true
+		case token.NEQ:
+			return c != 0, true
+		}
+	}
+	return false, false
+}
+
+// polyAt evaluates a polynomial in the single atom val at val = v; ok is false when another factor occurs.
+func polyAt(p *Poly, val *Term, v *big.Int) (*big.Int, bool) {
+	sum := new(big.Int)
+	for _, mo := range p.m {
+		x := new(big.Int).Set(mo.coef)
+		for _, fac := range mo.factors {
+			if fac.Op != OpAtom || fac.Name != val.Name {
+				return nil, false
+			}
+			x.Mul(x, v)
+		}
+		sum.Add(sum, x)
+	}
+	return sum, true
+}
+
+// roundHalfAwayArg recognises round-half-away-from-zero written with math.Trunc:
+//
+//	w := trunc(x); frac := x - w; frac >= 0.5 -> w+1; frac <= -0.5 -> w-1; otherwise w
+//
+// (x - trunc(x) is exact in binary floating point, and w +- 1 is exact while |w| < 2^53, so this equals
+// math.Round(x) for every float64 including NaN and the infinities.) Returns x, or nil.
+func roundHalfAwayArg(t *Term) *Term {
+	type arm struct{ cond, val *Term }
+	var arms []arm
+	for t.Op == OpIte {
+		arms = append(arms, arm{t.Args[0], t.Args[1]})
+		t = t.Args[2]
+	}
+	if len(arms) != 2 || t.Op != OpCall || t.Name != "math.Trunc" || len(t.Args) != 1 {
+		return nil
+	}
+	w, x := t, t.Args[0]
+	isF := func(c *Term, v float64) bool {
+		if c == nil || c.Op != OpConst {
+			return false
+		}
+		f, ok := floatOf(c.C)
+		return ok && f == v
+	}
+	isFrac := func(a *Term) bool {
+		return a.Op == OpSub && a.Args[0].Key() == x.Key() && a.Args[1].Key() == w.Key()
+	}
+	up, down := false, false
+	for _, a := range arms {
+		if a.cond.Op != OpCmp || !isFrac(a.cond.Args[0]) {
+			return nil
+		}
+		switch {
+		case a.cond.Tok == token.GEQ && isF(a.cond.Args[1], 0.5) && a.val.Op == OpAdd && a.val.Args[0].Key() == w.Key() && isF(a.val.Args[1], 1):
+			up = true
+		case a.cond.Tok == token.LEQ && isF(a.cond.Args[1], -0.5) && a.val.Op == OpSub && a.val.Args[0].Key() == w.Key() && isF(a.val.Args[1], 1):
+			down = true
+		default:
+			return nil
+		}
+	}
+	if up && down {
+		return x
+	}
+	return nil
 }
